@@ -285,6 +285,6 @@ def oracle(ctx):
             res.oracle_failures.append(dict(op=op, input=dict(spelling=sp), impl_output=core.dec_line(a),
                                             oracle_expectation=f'the escape in {sp!r} is valid and denotes ' + (repr(want_exact) if want_exact is not None else 'one character (or byte)')))
     call_sites(ctx, [p for p in sel if p[0] and p[0] == p[0].strip() and not any(ord(c) < 0x20 for c in p[0])])
-    through_files(ctx, sel)
+    through_files(ctx, [p for p in pairs if '\n' not in p[1] and p[1] == p[1].strip() and not p[1].endswith('\\')])
     res.samples.append(dict(kind='oracle-case', string=pairs[len(pairs) // 2][0], spelling=pairs[len(pairs) // 2][1]))
     ctx.log(f'oracle: {res.oracle_evals} evaluations, {len(res.oracle_failures)} failures')
